@@ -74,6 +74,8 @@ STD_BOUNDS = [(-3.0, 3.0), (-2.0, 2.0)]
 
 def regenerate(ctx: Ctx) -> None:
     ctx.gen_status.update(bh_tr.regenerate())
+    from translate import transcripts as _tr
+    ctx.gen_status.update(_tr.constructor_wiring(['BasinHopping', 'StandardPerturbation', 'AtomicPerturbation']))
 
 
 # ----------------------------------------------------------------------------- helpers
